@@ -394,7 +394,7 @@ def write_replay(pid, cfg, failure):
     path = os.path.join(d, "%s-%s.json" % (cfg.name, h))
     json.dump({"property": pid, "config": cfg.to_json(), "sig": failure["sig"], "msg": failure["msg"],
                "expect": failure["expect"], "actual": failure["actual"], "bad_lane": failure["bad_lane"],
-               "case": failure["case"], "phase": failure.get("phase"), "seed": SEED}, open(path, "w"), indent=1)
+               "case": failure["case"], "history": failure.get("history", []), "phase": failure.get("phase"), "seed": SEED}, open(path, "w"), indent=1)
     return path
 
 
@@ -620,7 +620,13 @@ def main_replay(path):
     if exe is None:
         print("replay: build failed\n" + log[-2000:])
         return 2
-    r = subprocess.run([exe, "--mode", "replay", "--config", cfg.name, "--case", d["case"]["text"]], stdout=subprocess.PIPE, stderr=subprocess.STDOUT, text=True)
+    cmd = [exe, "--mode", "replay", "--config", cfg.name, "--case", d["case"]["text"]]
+    if d.get("history"):
+        # a failure that needs the Cases executed before it (state carried between calls): they are replayed first
+        hp = os.path.join(BUILD, "history-%d.txt" % os.getpid())
+        open(hp, "w").write("\n".join(d["history"]) + "\n")
+        cmd += ["--history-file", hp]
+    r = subprocess.run(cmd, stdout=subprocess.PIPE, stderr=subprocess.STDOUT, text=True)
     print(r.stdout.strip())
     if r.returncode == 0:
         return 0
